@@ -1,7 +1,8 @@
 // =============================================================================
-// TRUSTED PRELUDE (units `sniff`, `bridge`): std::io bits, hyper's ReadBuf /
-// ReadBufCursor (unsafe code outside reach) and the hyper `Read` / `Write`
-// traits as stand-ins with the Pin-erased signatures (R5).
+// TRUSTED PRELUDE (units `sniff`, `bridge`), part 1: std::task / std::io bits, byte
+// slices, `min`, `to_vec`.  Part 2 (pure spec fns about raw memory): prelude/sniff_cells.rs;
+// part 3 (hyper's ReadBuf / ReadBufCursor and the `Read` / `Write` stand-in traits, the
+// contents of `hyper::rt`): prelude/sniff_hyper_rt.rs - both shared with unit `upgradable`.
 // Hand-written; every item is an assumption listed in the evidence file.
 // =============================================================================
 
@@ -49,204 +50,3 @@ pub broadcast axiom fn axiom_min_usize(a: usize, b: usize)
 
 pub assume_specification<T: Clone> [<[T]>::to_vec] (a: &[T]) -> (r: Vec<T>)
     ensures r@.len() == a@.len(), forall|i: int| 0 <= i < a@.len() ==> cloned(#[trigger] a@[i], r@[i]);
-
-// ---- raw (possibly uninitialised) memory: vstd's MaybeUninit model ----------------
-/// cells `[0, s.len())` of `cs` are initialised and hold the bytes `s`
-pub open spec fn cells_hold(cs: Seq<MaybeUninit<u8>>, s: Seq<u8>) -> bool {
-    s.len() <= cs.len() && forall|i: int| 0 <= i < s.len() ==> (#[trigger] cs[i]).mem_contents() == MemContents::Init(s[i])
-}
-/// cells `[0, n)` of `cs` are initialised
-pub open spec fn cells_init(cs: Seq<MaybeUninit<u8>>, n: int) -> bool {
-    n <= cs.len() && forall|i: int| 0 <= i < n ==> (#[trigger] cs[i]).mem_contents() is Init
-}
-/// the bytes held by cells `[0, n)`
-pub open spec fn cells_val(cs: Seq<MaybeUninit<u8>>, n: int) -> Seq<u8> {
-    Seq::new(n as nat, |i: int| cs[i].mem_contents().value())
-}
-/// going from cells `a` to cells `b` no initialised byte was de-initialised
-pub open spec fn no_deinit(a: Seq<MaybeUninit<u8>>, b: Seq<MaybeUninit<u8>>) -> bool {
-    a.len() == b.len() && forall|i: int| 0 <= i < b.len() && a[i].mem_contents() is Init ==> (#[trigger] b[i]).mem_contents() is Init
-}
-pub open spec fn is_prefix_of(a: Seq<u8>, b: Seq<u8>) -> bool {
-    a.len() <= b.len() && b.take(a.len() as int) == a
-}
-
-pub mod hyper {
-pub mod rt {
-    use vstd::prelude::*;
-    use vstd::raw_ptr::MemContents;
-    use std::mem::MaybeUninit;
-    use std::task::{Context, Poll};
-    use super::super::*;
-
-    // ---- hyper::rt::ReadBuf (model) ------------------------------------------------
-    // A ReadBuf owns `&'a mut [MaybeUninit<u8>]` plus a `filled` count.  Through its public API the
-    // filled region only grows and filled bytes are never overwritten.  Ghost attributes:
-    //   cap()        length of the raw buffer
-    //   fill()       the bytes of the filled region (what `filled()` returns)
-    //   cells()      the raw cells as they are now (only known until a cursor has been handed out)
-    //   last_fill()  PROPHECY: the filled region at the moment the ReadBuf is dropped.  `fill()` is always
-    //                a prefix of it; when the borrow ends (`has_resolved`) both coincide and the raw
-    //                buffer holds exactly these bytes in its first cells (A-buf: raw memory persists).
-    #[verifier::external_body]
-    pub struct ReadBuf<'a> { p: std::marker::PhantomData<&'a mut u8> }
-
-    // A cursor over the unfilled part.  Ghost attributes:
-    //   done()   bytes appended through this cursor so far
-    //   room()   capacity still available
-    //   cells()  the raw cells of the unfilled part, from the current position
-    //   total()  PROPHECY: everything that will have been appended when the cursor is dropped
-    #[verifier::external_body]
-    pub struct ReadBufCursor<'a> { p: std::marker::PhantomData<&'a mut u8> }
-
-    impl<'a> ReadBuf<'a> {
-        pub uninterp spec fn cap(&self) -> nat;
-        pub uninterp spec fn fill(&self) -> Seq<u8>;
-        pub uninterp spec fn cells(&self) -> Seq<MaybeUninit<u8>>;
-        pub uninterp spec fn last_fill(&self) -> Seq<u8>;
-
-        #[verifier::external_body]
-        pub fn uninit(raw: &'a mut [MaybeUninit<u8>]) -> (r: ReadBuf<'a>)
-            ensures
-                r.cap() == old(raw)@.len(),
-                r.fill() == Seq::<u8>::empty(),
-                r.cells() == old(raw)@,
-                r.last_fill().len() <= r.cap(),
-                final(raw)@.len() == old(raw)@.len(),
-                cells_hold(final(raw)@, r.last_fill()),
-                // hyper never de-initialises a byte ("if part of it turns out to be initialized, it must stay initialized")
-                no_deinit(old(raw)@, final(raw)@),
-        { unimplemented!() }
-
-        #[verifier::external_body]
-        pub fn filled(&self) -> (s: &[u8])
-            ensures s@ == self.fill()
-        { unimplemented!() }
-
-        #[verifier::external_body]
-        pub fn unfilled<'c>(&'c mut self) -> (c: ReadBufCursor<'c>)
-            ensures
-                c.done() == Seq::<u8>::empty(),
-                c.room() == old(self).cap() - old(self).fill().len(),
-                c.cells() == old(self).cells().skip(old(self).fill().len() as int),
-                c.total().len() <= c.room(),
-                old(self).fill().len() <= old(self).cap(),
-                final(self).cap() == old(self).cap(),
-                final(self).last_fill() == old(self).last_fill(),
-                final(self).fill() == old(self).fill() + c.total(),
-                c.total() == final(self).fill().skip(old(self).fill().len() as int),
-                is_prefix_of(final(self).fill(), final(self).last_fill()),
-        { unimplemented!() }
-    }
-
-    /// end of the ReadBuf's life: the prophecy is the final filled region
-    pub broadcast axiom fn axiom_readbuf_resolved(rb: ReadBuf<'_>)
-        requires #[trigger] has_resolved(rb),
-        ensures rb.fill() == rb.last_fill();
-
-    impl<'a> ReadBufCursor<'a> {
-        pub uninterp spec fn done(&self) -> Seq<u8>;
-        pub uninterp spec fn room(&self) -> nat;
-        pub uninterp spec fn cells(&self) -> Seq<MaybeUninit<u8>>;
-        pub uninterp spec fn total(&self) -> Seq<u8>;
-
-        /// representation facts that hold for every cursor state
-        pub open spec fn wf(&self) -> bool {
-            is_prefix_of(self.done(), self.total()) && self.total().len() <= self.done().len() + self.room()
-                && self.cells().len() == self.room()
-        }
-
-        /// SAFETY (hyper): the caller must not de-initialise bytes that are initialised.  The slice is the
-        /// unfilled part; whatever the caller leaves in it is what the cursor sees afterwards.
-        #[verifier::external_body]
-        pub unsafe fn as_mut(&mut self) -> (r: &mut [MaybeUninit<u8>])
-            ensures
-                r@ == old(self).cells(),
-                final(r)@.len() == r@.len(),
-                final(self).cells() == final(r)@,
-                final(self).done() == old(self).done(),
-                final(self).room() == old(self).room(),
-                final(self).total() == old(self).total(),
-        { unimplemented!() }
-
-        /// SAFETY (hyper): the next `n` bytes must have been initialised (and lie inside the buffer:
-        /// hyper only checks `filled + n` for arithmetic overflow)
-        #[verifier::external_body]
-        pub unsafe fn advance(&mut self, n: usize)
-            requires
-                // tagged: a call site is checked against the *actual* argument (unit bridge, hyper-side `poll_read`)
-                n <= old(self).room(), //# tio.read.advance_fits [C18]
-                cells_init(old(self).cells(), n as int), //# tio.read.advance_init [C18]
-            ensures
-                final(self).done() == old(self).done() + cells_val(old(self).cells(), n as int),
-                final(self).room() == old(self).room() - n,
-                final(self).cells() == old(self).cells().skip(n as int),
-                final(self).total() == old(self).total(),
-        { unimplemented!() }
-    }
-
-    /// every cursor state satisfies `wf` (bytes appended so far are a prefix of the prophecy, and the
-    /// rest of the prophecy fits into the remaining room)
-    pub broadcast axiom fn axiom_cursor_wf(c: ReadBufCursor<'_>)
-        ensures #[trigger] c.wf();
-
-    /// end of the cursor's life: the prophecy is what has been appended
-    pub broadcast axiom fn axiom_cursor_resolved(c: ReadBufCursor<'_>)
-        requires #[trigger] has_resolved(c),
-        ensures c.done() == c.total();
-
-    // ---- hyper::rt::Read (stand-in, Pin-erased) with the ghost stream model -----------
-    //   consumed()   bytes this reader has delivered so far
-    //   remaining()  PROPHECY: the bytes it will still deliver before end-of-stream
-    pub trait Read {
-        spec fn consumed(&self) -> Seq<u8>;
-        spec fn remaining(&self) -> Seq<u8>;
-
-        fn poll_read(&mut self, cx: &mut Context<'_>, buf: ReadBufCursor<'_>) -> (r: Poll<Result<(), std::io::Error>>)
-            ensures
-                read_contract(old(self).consumed(), old(self).remaining(), final(self).consumed(), final(self).remaining(), buf, r);
-    }
-
-    /// what is (going to be) appended through the cursor from its present state on
-    pub open spec fn appended(buf: ReadBufCursor<'_>) -> Seq<u8> {
-        buf.total().skip(buf.done().len() as int)
-    }
-
-    /// The contract of one `poll_read` call on a byte source whose still-to-come bytes go from r0 to r1:
-    /// a `Ready(Ok)` moves a chunk `w` from the front of the stream to the end of the cursor; the chunk is
-    /// empty only at end-of-stream or when the cursor has no room.  `Pending` / `Err` move nothing.
-    pub open spec fn read_moves(r0: Seq<u8>, r1: Seq<u8>, buf: ReadBufCursor<'_>, r: Poll<Result<(), std::io::Error>>) -> bool {
-        let w = appended(buf);
-        match r {
-            Poll::Ready(Ok(_)) => r0 == w + r1 && (w.len() == 0 ==> (buf.room() == 0 || r0.len() == 0)),
-            _ => r1 == r0 && w.len() == 0,
-        }
-    }
-    /// ... and the reader's record of what it has delivered grows by the same chunk
-    pub open spec fn read_contract(c0: Seq<u8>, r0: Seq<u8>, c1: Seq<u8>, r1: Seq<u8>, buf: ReadBufCursor<'_>, r: Poll<Result<(), std::io::Error>>) -> bool {
-        read_moves(r0, r1, buf, r) && c1 == (if r matches Poll::Ready(Ok(_)) { c0 + appended(buf) } else { c0 })
-    }
-
-    // ---- hyper::rt::Write (stand-in, Pin-erased) ---------------------------------------
-    // The effect of each operation is an abstract relation between the writer before, the writer after,
-    // the arguments and the result; an adapter is transparent when its own operation *is* the inner one.
-    pub trait Write: Sized {
-        spec fn write_rel(pre: Self, post: Self, buf: Seq<u8>, r: Poll<Result<usize, std::io::Error>>) -> bool;
-        spec fn write_vectored_rel(pre: Self, post: Self, bufs: &[std::io::IoSlice<'_>], r: Poll<Result<usize, std::io::Error>>) -> bool;
-        spec fn flush_rel(pre: Self, post: Self, r: Poll<Result<(), std::io::Error>>) -> bool;
-        spec fn shutdown_rel(pre: Self, post: Self, r: Poll<Result<(), std::io::Error>>) -> bool;
-        spec fn vectored(&self) -> bool;
-
-        fn poll_write(&mut self, cx: &mut Context<'_>, buf: &[u8]) -> (r: Poll<Result<usize, std::io::Error>>)
-            ensures Self::write_rel(*old(self), *final(self), buf@, r);
-        fn poll_write_vectored(&mut self, cx: &mut Context<'_>, bufs: &[std::io::IoSlice<'_>]) -> (r: Poll<Result<usize, std::io::Error>>)
-            ensures Self::write_vectored_rel(*old(self), *final(self), bufs, r);
-        fn poll_flush(&mut self, cx: &mut Context<'_>) -> (r: Poll<Result<(), std::io::Error>>)
-            ensures Self::flush_rel(*old(self), *final(self), r);
-        fn poll_shutdown(&mut self, cx: &mut Context<'_>) -> (r: Poll<Result<(), std::io::Error>>)
-            ensures Self::shutdown_rel(*old(self), *final(self), r);
-        fn is_write_vectored(&self) -> (r: bool)
-            ensures r == self.vectored();
-    }
-}
-}
